@@ -136,7 +136,9 @@ class C12(Prop):
                   "efun, exec() moving a connection to another object, uncaught LPC errors that abort an iteration and restart the loop) for all tables, cursors, queue depths "
                   "and scripts; TOP THEOREM model_satisfies_spec: judgeEv (events sc cs) = [] - the specification oracle (all five "
                   "clause oracles: twice / outside / crash / malformed, efun, fifo, starved / idleWait, overtaken) accepts the "
-                  "trace of the model for every history with plain bytes and every script oracle; the model is tied to the source by regenerated "
+                  "trace of the model for every history with plain bytes in which get_user_data never discards a text buffer "
+                  "(overflow = false; otherwise the open finding C13-typeahead-discard applies: arrivals_append_Full_false) and "
+                  "every script oracle; the model is tied to the source by regenerated "
                   "expressions, flag bits and AST statement orders (bridging lemmas are obligations) and by stepping the REAL "
                   "backend() loop (guarded cycle hook; aborted iterations seen through the second poll) with loopback TCP clients "
                   "on the same histories; the Lean oracle judges every implementation trace")
@@ -146,16 +148,19 @@ class C12(Prop):
                   "NUL/BS/DEL/CR/LF: such bytes edit or split lines); input buffer size rules (C13), `!` "
                   "escapes, ed, console user are outside the model")
     rule = ("cases = corpus + boundary list + seeded random histories: 1..12 users (sometimes 50..112) connecting (accept queue), "
-            "closing, being kicked/dropped from inside commands, sparse slot layouts, several users quitting inside one command "
+            "closing, being kicked/dropped from inside commands, sparse slot layouts, 140 users at once, type-ahead of ~20 commands "
+            "per cycle up to and beyond get_user_data's discard size, several users quitting inside one command "
             "loop with nobody idle, bursts of 0..12 lines per user incl. partial lines and empty lines, get_char/input_to mode "
             "switches, nested command() calls, exec() of the connection to a fresh object, commands that raise uncaught errors (aborted iterations); every cycle of the real "
             "backend() is compared line by line with the model (commands served, iflags and slot of every user after each "
             "cycle); a case is non-trivial when at least one buffered command was executed; distinct = distinct canonical "
             "implementation trace")
-    not_covered = ["interactive_t.text compaction / overflow rules (more than ~300 bytes per user per case) - property C13; note: "
-                   "C13's open finding C13-typeahead-discard (complete type-ahead commands discarded when > 1663 bytes are "
-                   "pending) is a loss of commands that wait for their turns, i.e. it also breaks the FIFO clause of this "
-                   "property for such bursts",
+    not_covered = ["runs in which get_user_data discards a text buffer (open finding C12-typeahead-discard = C13-typeahead-discard): "
+                   "the model mirrors the discard and the driver is compared on it, but the trace theorems for fifo / starved / "
+                   "idleWait / overtaken carry the side condition overflow = false",
+                   "harness discipline (also in the model): at most MAX_TEXT/16 unread bytes per user and at most MAX_EVENTS-2 "
+                   "ready descriptors per poll round; partial reads, a CR|LF split across reads, the 'no room' exit of "
+                   "reframe_single_char_input and the truncation of an over-long partial line are not modelled",
                    "`!` shell escapes with a pending input_to, ed, snooping, console user (slot 0), telnet negotiation bytes",
                    "heart beats: an iteration aborted by an error skips call_heart_beat() (property C11)"]
 
